@@ -328,6 +328,26 @@ func VH_C09_services() {
 	err := verifLoadCfg(s, &verifCfgStep{cfg: cfg})
 	verifAssert("C09.load-ok", err == nil)
 	verifCheckState("C09", sm, &cfg, []verifLn{verifL1T, verifL1U, verifL2T, verifL2U}, verifKeys)
+	// the same again: what the first round left behind (last client address per key, order of
+	// the key list) changes nothing
+	verifCheckState("C09.second-round", sm, &cfg, []verifLn{verifL1T, verifL1U, verifL2T, verifL2U}, verifKeys)
+	// one client address using the keys of a service in turn: each key keeps authenticating
+	turns := 0
+	for round := 0; round < 2; round++ {
+		for _, k := range verifKeys[:2] {
+			want, wantID := verifExpect(&cfg, verifL1T, k)
+			up, auth, id := verifProbeTCP(sm, verifL1T.port, k)
+			turns++
+			verifAssert("C09.keys-in-turn.tcp", up && auth == want && (!auth || id == wantID))
+		}
+	}
+	for round := 0; round < 2; round++ {
+		for _, k := range verifKeys[:2] {
+			want, wantID := verifExpect(&cfg, verifL1U, k)
+			up, auth, id := verifProbeUDP(sm, verifL1U.addr(), k)
+			verifAssert("C09.keys-in-turn.udp", up && auth == want && (!auth || id == wantID))
+		}
+	}
 	// every accepted TCP connection was reported opened exactly once
 	opened := 0
 	sm.mu.Lock()
@@ -337,7 +357,7 @@ func VH_C09_services() {
 		}
 	}
 	sm.mu.Unlock()
-	verifAssert("C15.opened-once-per-connection", opened == 2*len(verifKeys))
+	verifAssert("C15.opened-once-per-connection", opened == 2*2*len(verifKeys)+turns)
 	verifAssert("C09.stop-ok", s.Stop() == nil)
 	verifQuiesce()
 	verifReach("C09.done", true)
@@ -411,7 +431,7 @@ func VH_C10_reload() {
 	}}
 	step := &verifCfgStep{cfg: bad}
 	var blocker *net.TCPListener
-	fault := verifChoice("fault", 7)
+	fault := verifChoice("fault", 8)
 	switch fault {
 	case 0:
 		step.readErr = true
@@ -428,6 +448,9 @@ func VH_C10_reload() {
 		blocker, _ = net.ListenTCP("tcp", &net.TCPAddr{IP: net.IPv4(127, 0, 0, 1), Port: 9203})
 	case 6:
 		service.VerifOccupyPacket(verifL2U.addr())
+	case 7:
+		// a key with a bad cipher that shares its secret with a good key of the same service
+		step.cfg.Services[1].Keys = append(step.cfg.Services[1].Keys, KeyConfig{ID: "bad-3", Cipher: "rot13", Secret: verifKeys[2].secret})
 	}
 	err := verifLoadCfg(s, step)
 	verifAssert("C10.bad-reload-reports-error", err != nil)
@@ -666,4 +689,84 @@ func VH_C09_same_socket_two_spellings() {
 	}
 	verifQuiesce()
 	verifReach("C09.spellings.refused", err != nil)
+}
+
+// C10: unusual spellings of the listener type. Whatever the loader decides, the outcome is one
+// of the two the property allows: the reload fails and the previous configuration keeps serving,
+// or it succeeds and every listener of the new configuration is serving.
+func VH_C10_listener_type_spellings() {
+	sm := &verifSvcMetrics{}
+	s := verifNewServer(sm)
+	g1 := Config{Services: []ServiceConfig{verifSvc([]verifLn{verifL1T, verifL1U}, verifKC("g1", verifKeys[0]))}}
+	verifAssert("C10.spellings.first-load-ok", verifLoadCfg(s, &verifCfgStep{cfg: g1}) == nil)
+	all := []verifLn{verifL1T, verifL1U, verifL2T, verifL2U, verifL3T}
+	type spelling struct {
+		written ListenerType
+		means   ListenerType // "" = not a listener type under any reading
+	}
+	spellings := []spelling{{"TCP", "tcp"}, {"Udp", "udp"}, {"tcp ", ""}, {"", ""}, {"tcp4", ""}, {"UDP", "udp"}}
+	sp := spellings[verifChoice("spelling", len(spellings))]
+	cfg := Config{Services: []ServiceConfig{{
+		Listeners: []ListenerConfig{{Type: sp.written, Address: verifL2T.addr()}, {Type: listenerTypeUDP, Address: verifL1U.addr()}, {Type: listenerTypeTCP, Address: verifL3T.addr()}},
+		Keys:      []KeyConfig{verifKC("n1", verifKeys[1])},
+	}}}
+	err := verifLoadCfg(s, &verifCfgStep{cfg: cfg})
+	if err != nil {
+		verifCheckState("C10.spellings.after-failed-reload", sm, &g1, all, verifKeys)
+		verifReach("C10.spellings.refused", true)
+	} else {
+		verifAssert("C10.spellings.accepted-type-is-a-listener-type", sp.means != "")
+		norm := cfg
+		norm.Services = []ServiceConfig{cfg.Services[0]}
+		norm.Services[0].Listeners = append([]ListenerConfig{}, cfg.Services[0].Listeners...)
+		norm.Services[0].Listeners[0].Type = sp.means
+		verifCheckState("C10.spellings.after-accepted-reload", sm, &norm, all, verifKeys)
+	}
+	verifAssert("C10.spellings.stop-ok", s.Stop() == nil)
+	verifQuiesce()
+	verifReach("C10.spellings.done", true)
+}
+
+// C11: a reload that fails (here: another listener of the new configuration cannot be bound)
+// does not disturb the addresses the old configuration keeps serving: they stay bound on the
+// same sockets, connections are not refused and keys keep authenticating
+func VH_C11_failed_reload_keeps_bindings() {
+	sm := &verifSvcMetrics{}
+	s := verifNewServer(sm)
+	g1 := Config{Services: []ServiceConfig{verifSvc([]verifLn{verifL1T, verifL1U}, verifKC("old", verifKeys[0]))}}
+	verifAssert("C11.failed-reload.first-load-ok", verifLoadCfg(s, &verifCfgStep{cfg: g1}) == nil)
+	gen0 := service.VerifPacketSocketGen(verifL1U.addr())
+	early := verifDialTCP(&net.TCPAddr{IP: net.IPv4(127, 0, 0, 1), Port: 9201})
+	verifAssert("C11.failed-reload.early-accepted", early >= 0)
+	verifQuiesce()
+	g2 := Config{Services: []ServiceConfig{
+		verifSvc([]verifLn{verifL1T, verifL1U}, verifKC("old", verifKeys[0])),
+		verifSvc([]verifLn{verifL3T, verifL2U}, verifKC("extra", verifKeys[2])),
+	}}
+	var blocker *net.TCPListener
+	tcpBusy := verifFlag("tcp-address-busy")
+	if tcpBusy {
+		blocker, _ = net.ListenTCP("tcp", &net.TCPAddr{IP: net.IPv4(127, 0, 0, 1), Port: 9203})
+	} else {
+		service.VerifOccupyPacket(verifL2U.addr())
+	}
+	verifAssert("C11.failed-reload.reports-error", verifLoadCfg(s, &verifCfgStep{cfg: g2}) != nil)
+	if blocker != nil {
+		blocker.Close()
+	} else {
+		service.VerifReleasePacket(verifL2U.addr())
+	}
+	verifAssert("C11.failed-reload.udp-socket-never-rebound", service.VerifPacketSocketGen(verifL1U.addr()) == gen0)
+	verifAssert("C11.failed-reload.tcp-socket-never-rebound", verifTCPListenCount(9201) <= 1)
+	verifAssert("C11.failed-reload.early-not-closed", !verifTCPPeerClosed(early))
+	up, auth, id := verifProbeTCP(sm, 9201, verifKeys[0])
+	verifAssert("C11.failed-reload.tcp-still-served", up && auth && id == "old")
+	up, auth, id = verifProbeUDP(sm, verifL1U.addr(), verifKeys[0])
+	verifAssert("C11.failed-reload.udp-still-served", up && auth && id == "old")
+	verifTCPSend(early, verifHandshake(verifKeys[0]))
+	verifTCPCloseWrite(early)
+	verifQuiesce()
+	verifAssert("C11.failed-reload.stop-ok", s.Stop() == nil)
+	verifQuiesce()
+	verifReach("C11.failed-reload.done", true)
 }
